@@ -7,6 +7,8 @@
 import Driver.Util
 import Driver.Delta
 import Driver.Engine
+import Driver.Wire
+import Driver.Compress
 
 namespace Driver
 
@@ -18,6 +20,8 @@ def dispatch (toks : List String) : String :=
     let r : Option String :=
       if area == "adler" || area == "delta" then Driver.Delta.handle toks
       else if area == "engine" then Driver.Engine.handle toks
+      else if area == "wire" then Driver.Wire.handle toks
+      else if area == "compress" || area == "sparse" then Driver.Compress.handle toks
       else none
     r.getD "bad-op"
 
